@@ -8,7 +8,9 @@
        K  = 2:  additionally b with every PAIR of dimensions set to every pair of values of
                 their SMALL domains (pairwise cover around b)
    Dimensions: subj, from, to, cc, bcc, rt, date, mid, irt, bs (structure), bp (plain charset x
-   CTE), bh (html charset x CTE), pf, att1, att2, nest, ser.                                  *)
+   CTE), bh (html charset x CTE), pf, bx (further plain-text body candidates), att1, att2, nest, ser.
+   The attachment dimension is itself a cover (AttVals); messages that Mail!ValidBody / ValidAtt
+   exclude are dropped.                                  *)
 EXTENDS Mail
 
 CONSTANT K
@@ -18,27 +20,35 @@ gvars == <<m>>
 
 SeqsUpTo(S, n) == UNION { [1..j -> S] : j \in 0..n }
 
-ValidAtt(a) == (a.pl = "bin" => ~a.known)          \* no known MIME type stands for arbitrary bytes
-NoAtt == [p |-> FALSE, fn |-> "none", ns |-> "plain", nx |-> "ext", known |-> FALSE, pl |-> "bin", cte |-> "base64"]
-BaseAtt == [p |-> TRUE, fn |-> "ascii", ns |-> "plain", nx |-> "ext", known |-> TRUE, pl |-> "csv", cte |-> "base64"]
-\* the attachment dimension is itself a cover (the product has ~10^4 values):
+NoAtt == [p |-> FALSE, fn |-> "none", ns |-> "plain", nx |-> "ext", mt |-> "invented", pl |-> "bin", cte |-> "base64",
+          disp |-> "attachment", cid |-> FALSE, desc |-> FALSE, xid |-> FALSE, loc |-> FALSE]
+BaseAtt == [p |-> TRUE, fn |-> "ascii", ns |-> "plain", nx |-> "ext", mt |-> "official", pl |-> "csv", cte |-> "base64",
+            disp |-> "attachment", cid |-> FALSE, desc |-> FALSE, xid |-> FALSE, loc |-> FALSE]
+\* the attachment dimension is itself a cover (the product has ~10^6 values):
 AttVals ==
-    LET A1 == { [BaseAtt EXCEPT !.pl = x, !.nx = y] : x \in DocPayloads, y \in NameExts }        \* type x extension
+    LET A1 == { [BaseAtt EXCEPT !.pl = x, !.nx = y] : x \in SuppPayloads, y \in NameExts }       \* type x extension
         A2 == { [BaseAtt EXCEPT !.fn = f, !.ns = s] : f \in FnKinds \ {"none"}, s \in NameShapes } \* form x shape
-        A3 == { [BaseAtt EXCEPT !.fn = "none", !.pl = x, !.known = k] : x \in Payloads, k \in BOOLEAN }
-        A4 == { [BaseAtt EXCEPT !.known = FALSE, !.pl = x, !.nx = y] : x \in Payloads, y \in {"ext", "noext"} }
+        A3 == { [BaseAtt EXCEPT !.fn = "none", !.pl = x, !.mt = t] : x \in Payloads, t \in {"official", "invented"} }
+        \* declared type x payload (x own / no extension for the types the table maps)
+        A4 == { [BaseAtt EXCEPT !.mt = t, !.pl = x, !.nx = y] : t \in {"alias", "cross"}, x \in Payloads, y \in {"ext", "noext"} }
+              \cup { [BaseAtt EXCEPT !.mt = t, !.pl = x] : t \in {"octet", "plausible", "invented"}, x \in Payloads }
         A5 == { [BaseAtt EXCEPT !.cte = "qp", !.pl = x, !.fn = f] : x \in Payloads, f \in {"ascii", "rfc2231"} }
         A6 == { [BaseAtt EXCEPT !.ns = s, !.nx = y, !.pl = x] : s \in {"slash", "drive", "dot"}, y \in {"noext", "wrongext"},
                                                                x \in {"ods", "pdf"} }
-    IN { a \in A1 \cup A2 \cup A3 \cup A4 \cup A5 \cup A6 : ValidAtt(a) }
+        \* optional part headers, drawn independently
+        A7 == { [BaseAtt EXCEPT !.disp = d, !.cid = c, !.desc = e, !.xid = i, !.loc = l] :
+                  d \in Disps, c \in BOOLEAN, e \in BOOLEAN, i \in BOOLEAN, l \in BOOLEAN }
+        A8 == { [BaseAtt EXCEPT !.pl = x, !.cid = TRUE, !.disp = d] : x \in {"docx", "pdf", "zip"}, d \in Disps }
+    IN { a \in A1 \cup A2 \cup A3 \cup A4 \cup A5 \cup A6 \cup A7 \cup A8 : ValidAtt(a) }
 AttSmall == { BaseAtt,
               [BaseAtt EXCEPT !.fn = "none", !.pl = "txt", !.cte = "qp"],
-              [BaseAtt EXCEPT !.fn = "rfc2231", !.ns = "slash", !.pl = "docx"],
-              [BaseAtt EXCEPT !.fn = "rfc2047", !.ns = "drive", !.known = FALSE, !.pl = "html"],
-              [BaseAtt EXCEPT !.nx = "noext", !.pl = "ods"],
-              [BaseAtt EXCEPT !.fn = "none", !.known = FALSE, !.pl = "bin"] }
+              [BaseAtt EXCEPT !.fn = "rfc2231", !.ns = "slash", !.pl = "docx", !.cid = TRUE],
+              [BaseAtt EXCEPT !.fn = "rfc2047", !.ns = "drive", !.mt = "invented", !.pl = "html"],
+              [BaseAtt EXCEPT !.nx = "noext", !.pl = "ods", !.disp = "inline"],
+              [BaseAtt EXCEPT !.mt = "alias", !.pl = "zip", !.xid = TRUE],
+              [BaseAtt EXCEPT !.fn = "none", !.mt = "octet", !.pl = "bin"] }
 
-Dims == {"subj", "from", "to", "cc", "bcc", "rt", "date", "mid", "irt", "bs", "bp", "bh", "pf",
+Dims == {"subj", "from", "to", "cc", "bcc", "rt", "date", "mid", "irt", "bs", "bp", "bh", "pf", "bx",
          "att1", "att2", "nest", "ser"}
 
 Full(d) ==
@@ -52,6 +62,7 @@ Full(d) ==
       [] d = "bs"   -> Structs
       [] d \in {"bp", "bh"} -> [c : Charsets, e : CTEs]
       [] d = "pf"   -> BOOLEAN
+      [] d = "bx"   -> Extras
       [] d \in {"att1", "att2"} -> {NoAtt} \cup AttVals
       [] d = "nest" -> BOOLEAN
       [] d = "ser"  -> Sers
@@ -70,6 +81,7 @@ Small(d) ==
       [] d \in {"bp", "bh"} -> { [c |-> "ascii", e |-> "7bit"], [c |-> "utf8", e |-> "base64"],
                                  [c |-> "latin1", e |-> "qp"], [c |-> "koi8r", e |-> "7bit"] }
       [] d = "pf"   -> BOOLEAN
+      [] d = "bx"   -> Extras
       [] d \in {"att1", "att2"} -> {NoAtt} \cup AttSmall
       [] d = "nest" -> BOOLEAN
       [] d = "ser"  -> Sers
@@ -88,6 +100,7 @@ With(b, d, x) ==
       [] d = "bp"   -> [b EXCEPT !.body.pc = x.c, !.body.pe = x.e]
       [] d = "bh"   -> [b EXCEPT !.body.hc = x.c, !.body.he = x.e]
       [] d = "pf"   -> [b EXCEPT !.body.pf = x]
+      [] d = "bx"   -> [b EXCEPT !.body.x = x]
       [] d = "att1" -> [b EXCEPT !.att1 = x]
       [] d = "att2" -> [b EXCEPT !.att2 = x]
       [] d = "nest" -> [b EXCEPT !.nest = x]
@@ -97,25 +110,30 @@ BaseSimple ==
     [ subj |-> [k |-> "ascii", e |-> "raw"], from |-> <<"atom">>, to |-> <<"none">>,
       cc |-> <<>>, bcc |-> <<>>, rt |-> <<>>,
       date |-> [p |-> TRUE, z |-> "utc", wd |-> TRUE], mid |-> "plain", irt |-> "none",
-      body |-> [s |-> "plain", pc |-> "ascii", pe |-> "7bit", hc |-> "ascii", he |-> "7bit", pf |-> FALSE],
+      body |-> [s |-> "plain", pc |-> "ascii", pe |-> "7bit", hc |-> "ascii", he |-> "7bit", pf |-> FALSE, x |-> "none"],
       att1 |-> NoAtt, att2 |-> NoAtt, nest |-> FALSE, ser |-> "hand" ]
 
 BaseRich ==
     [ subj |-> [k |-> "utf8", e |-> "b"], from |-> <<"encq">>, to |-> <<"quoted", "encb">>,
       cc |-> <<"atom">>, bcc |-> <<"none">>, rt |-> <<"quoted">>,
       date |-> [p |-> TRUE, z |-> "east", wd |-> TRUE], mid |-> "plain", irt |-> "plain",
-      body |-> [s |-> "altrel", pc |-> "utf8", pe |-> "qp", hc |-> "latin1", he |-> "base64", pf |-> TRUE],
+      body |-> [s |-> "altrel", pc |-> "utf8", pe |-> "qp", hc |-> "latin1", he |-> "base64", pf |-> TRUE, x |-> "none"],
       att1 |-> BaseAtt,
-      att2 |-> [BaseAtt EXCEPT !.fn = "rfc2231", !.known = FALSE, !.pl = "bin"],
+      att2 |-> [BaseAtt EXCEPT !.fn = "rfc2231", !.mt = "invented", !.pl = "bin"],
       nest |-> FALSE, ser |-> "handcrlf" ]
 
 Bases == {BaseSimple, BaseRich}
 
 One(b) == UNION { { With(b, d, x) : x \in Full(d) } : d \in Dims }
+          \cup { With(With(b, "bs", s), "bx", x) : s \in Structs, x \in Extras }       \* structure x extra candidates
+          \cup { With(With(b, "bx", x), "att1", a) : x \in Extras \ {"none"},            \* extras x text attachments
+                  a \in { [BaseAtt EXCEPT !.pl = "txt"], [BaseAtt EXCEPT !.pl = "txt", !.fn = "none"],
+                          [BaseAtt EXCEPT !.pl = "html"] } }
 Two(b) == UNION { UNION { { With(With(b, d1, x), d2, y) : x \in Small(d1), y \in Small(d2) }
                           : d2 \in Dims \ {d1} } : d1 \in Dims }
 
-Cases == UNION { One(b) \cup (IF K >= 2 THEN Two(b) ELSE {}) : b \in Bases }
+ValidMsg(c) == ValidBody(c.body) /\ ValidAtt(c.att1) /\ ValidAtt(c.att2)
+Cases == { c \in UNION { One(b) \cup (IF K >= 2 THEN Two(b) ELSE {}) : b \in Bases } : ValidMsg(c) }
 
 Init == m \in Cases
 Next == UNCHANGED m
